@@ -53,7 +53,10 @@ struct ObsState {
     ongoing: BTreeSet<u64>,
     /// snapshots (stored set, wall clock) taken whenever the pruner read the stored ranges; the
     /// pruner runs ahead of the harness, so a report is judged against the recent snapshots
-    snaps: std::collections::VecDeque<(BTreeSet<u64>, i64)>,
+    snaps: std::collections::VecDeque<(BTreeSet<u64>, i64, i64)>,
+    /// wall clock when the pruner's previous store call returned: the pruner reads its clock
+    /// somewhere between that instant and its next read of the stored ranges
+    last_pruner_call_wall: Option<i64>,
     removed: u64,
 }
 
@@ -146,14 +149,16 @@ impl StoreObserver for Obs {
         if tag != "pruner" {
             return;
         }
+        let mut st = self.st.lock().unwrap();
+        let now = self.ctx.wall_now_ns();
         if let (Call::GetStored, Ret::Ranges(r)) = (call, ret) {
-            let mut st = self.st.lock().unwrap();
-            let now = self.ctx.wall_now_ns();
-            st.snaps.push_back((ranges_to_set(r), now));
+            let lo = st.last_pruner_call_wall.unwrap_or(now).min(now);
+            st.snaps.push_back((ranges_to_set(r), lo, now));
             if st.snaps.len() > 12 {
                 st.snaps.pop_front();
             }
         }
+        st.last_pruner_call_wall = Some(now);
     }
 }
 
@@ -214,7 +219,7 @@ async fn run_prune(ctx: &Arc<RunCtx>) {
     } else {
         sampling_window + Duration::from_secs(ctx.range("cfg.pruning_extra_s", 0, span_s / 2 + 1))
     };
-    let store_delay = ctx.choose("cfg.store_delay", 3);
+    let store_delay = *ctx.pick("cfg.store_delay", &[0u32, 1, 2, 2, 30, 600]);
     let p_refuse = ctx.range("cfg.p_ongoing", 0, 500) as u32;
     let run_s = ctx.range("cfg.run_s", 30, if thorough { 3000 } else { 900 });
     let clock_jumps = ctx.coin("cfg.clock_jumps", 300);
@@ -280,7 +285,7 @@ async fn run_prune(ctx: &Arc<RunCtx>) {
         blockstore: blockstore.clone(),
         pruning_window_ns: pruning_window.as_nanos() as i64,
         sampling_window_ns: sampling_window.as_nanos() as i64,
-        st: Mutex::new(ObsState { ongoing: BTreeSet::new(), snaps: Default::default(), removed: 0 }),
+        st: Mutex::new(ObsState { ongoing: BTreeSet::new(), snaps: Default::default(), last_pruner_call_wall: None, removed: 0 }),
     });
     // the scripted daser is sampling some unsampled heights
     if let (Ok(stored), Ok(sampled)) = (inner.get_stored_header_ranges().await, inner.get_sampled_ranges().await) {
@@ -340,9 +345,24 @@ async fn run_prune(ctx: &Arc<RunCtx>) {
                             // the pruner only reports when the edge moved forward, so `None` is never
                             // reported; the report belongs to one of the recent reads
                             let mut errs = Vec::new();
-                            let ok = st.snaps.iter().any(|(stored, now)| {
-                                let cutoff = now - pruning_window.as_nanos() as i64;
-                                match window_edge_ok(&chain, stored, cutoff, Some(value), EPS_NS) {
+                            // the pruner read its clock at some instant between its previous
+                            // store call and the read (store calls are delayed, the clock may
+                            // jump in between): the report must be the edge for some cutoff in
+                            // that interval. With times increasing with height that is: the
+                            // answer is not newer than the latest cutoff, and the next stored
+                            // header above it is not older than the earliest one.
+                            let ok = st.snaps.iter().any(|(stored, now_lo, now_hi)| {
+                                let pw = pruning_window.as_nanos() as i64;
+                                let r = window_edge_ok(&chain, stored, now_hi - pw, Some(value), EPS_NS).or_else(|e| {
+                                    if !stored.contains(&value) || time_to_ns(chain.time_of(value)) > now_hi - pw + EPS_NS {
+                                        return Err(e);
+                                    }
+                                    match stored.range(value + 1..).next() {
+                                        Some(next) if time_to_ns(chain.time_of(*next)) < now_lo - pw - EPS_NS => Err(e),
+                                        _ => Ok(()),
+                                    }
+                                });
+                                match r {
                                     Ok(()) => true,
                                     Err(e) => { errs.push(e); false }
                                 }
